@@ -399,7 +399,7 @@ fn gen_i(r: &mut Rng, lo: i64, hi: i64) -> i64 {
 pub fn gen_f64(r: &mut Rng) -> u64 {
     match r.below(10) {
         0..=4 => *r.pick(F64_SPECIAL),
-        5 => (r.range(-4, 4) as f64).to_bits(),
+        5 => (match r.below(3) { 0 => r.range(-4, 4), 1 => r.range(-100000, 100000), _ => r.range(-(1i64 << 53) + 1, (1i64 << 53) - 1) } as f64).to_bits(),
         6 => (r.range(-4000, 4000) as f64 / 8.0).to_bits(),
         7 => r.below(8), // tiny subnormals
         _ => r.next(),
@@ -657,7 +657,19 @@ const CORNER_TEXT: &[(&str, &str)] = &[
     ("ts", "1991-01-08 04:05:06"), ("ts", "1991-01-08 04:05:06.5"), ("ts", "1991-01-08 04:05:06 BC"),
     ("ts", "0004-02-29 00:00:00 BC"), ("ts", "0001-02-29 00:00:00 BC"), ("ts", "1991-01-08 24:00:00"),
     ("ts", "1991-01-08 23:60:00"), ("ts", "1991-01-08 4:5:6"), ("ts", "1991-01-08  04:05:06"), ("ts", "1991-01-0804:05:06"),
-    ("ts", "1991-01-08"), ("ts", "+10000-01-01 00:00:00"), ("ts", "0000-01-01 00:00:00"), ("ts", "0000-01-01 00:00:00 BC"),
+    ("ts", "1991-01-08"), ("ts", "+10000-01-01 00:00:00"),
+    ("tstz", "1991-01-08 04:05:06 +08:00"), ("tstz", "1991-01-08 04:05:06 +0800"), ("tstz", "1991-01-08 04:05:06 +08"),
+    ("tstz", "1991-01-08 04:05:06 -08:30"), ("tstz", "1991-01-08 04:05:06+08:00"), ("tstz", "1991-01-08 04:05:06 +8:00"),
+    ("tstz", "1991-01-08 04:05:06 +24:00"), ("tstz", "1991-01-08 04:05:06 +23:59"), ("tstz", "1991-01-08 04:05:06 +08 00"),
+    ("tstz", "1991-01-08 04:05:06 Z"), ("tstz", "1991-01-08 04:05:06 +08:60"), ("tstz", "1991-01-08 04:05:06 BC +08:00"),
+    ("tstz", "1991-01-08 04:05:06 +08:00 BC"), ("tstz", "1991-01-08 04:05:06 AD"), ("tstz", "1991-01-08 04:05:06 +99:00"),
+    ("tstz", "1991-01-08 04:05:06  +08:00"), ("tstz", "1991-01-08 04:05:06 \u{2212}08:00"), ("tstz", "0004-03-01 00:00:00 BC +12:00"),
+    ("tstz", "0001-01-01 00:00:00 BC -01:00"), ("tstz", "1991-01-08 04:05:06 +08:00 "), ("tstz", "1991-01-08 04:05:06 AD +08:00"),
+    ("ts", "1991-01-08 04:05:06 +08:00"), ("ts", "1991-01-08 04:05:06 +99:00"), ("ts", "1991-01-08 04:05:06 BC +08:00"),
+    ("ts", "1991-01-08 04:05:06 +08:00 BC"), ("ts", "1991-01-08 04:05:06 AD"), ("ts", "1991-01-08 04:05:06 AD BC"),
+    ("f64", "NaN"), ("f64", "nan"), ("f64", "-NaN"), ("f64", "inf"), ("f64", "-inf"), ("f64", "+Infinity"), ("f64", "0"), ("f64", "-0"),
+    ("f64", "007"), ("f64", "9007199254740991"), ("f64", "9007199254740993"), ("f64", "4503599627370497"), ("f64", "1e3"),
+    ("f64", "1.5"), ("f64", ""), ("f64", "-"), ("f64", "12345678"), ("f64", "+1"), ("ts", "0000-01-01 00:00:00"), ("ts", "0000-01-01 00:00:00 BC"),
 ];
 
 fn gen_requests(tier: &str, out: &str) {
@@ -692,9 +704,25 @@ fn gen_requests(tier: &str, out: &str) {
         let ty = TYPES[i % TYPES.len()];
         let v = gen_val(&mut r, ty);
         if let Ok(t) = display_of(&v) {
-            let mut t = mutate_text(&mut r, &t);
+            let mut t = if r.chance(1, 3) && !(ty == "ts" || ty == "tstz") || r.chance(1, 6) { t } else { mutate_text(&mut r, &t) };
             if r.chance(1, 4) {
                 t = mutate_text(&mut r, &t);
+            }
+            if (ty == "ts" || ty == "tstz") && r.chance(1, 2) {
+                // strip Display's own offset, then try the suffix grammar of from_str
+                let base = t.trim_end_matches(" +00:00").to_string();
+                let hh = r.below(26);
+                let mm = *r.pick(&[0u64, 0, 30, 45, 59, 60]);
+                let off = format!("{}{:02}{}{:02}", r.pick(&["+", "-", "\u{2212}"]), hh, r.pick(&[":", "", " ", "::"]), mm);
+                t = match r.below(7) {
+                    0 => format!("{base} {off}"),
+                    1 => format!("{base}{off}"),
+                    2 => format!("{base} AD"),
+                    3 => format!("{base} {off} {}", r.pick(&["AD", "BC"])),
+                    4 => format!("{base} {} {off}", r.pick(&["AD", "BC"])),
+                    5 => format!("{base}  {off}"),
+                    _ => format!("{base} +00:00"),
+                };
             }
             s += &format!("parse {} {}\n", ty, hex_or_dash(t.as_bytes()));
         }
